@@ -76,6 +76,11 @@ def _case(rng, spec, m, n, perms, dtype=None):
         kind = rng.choice(["wellcond", "gauss", "nonconflict", "wellcond"])
         m, n = min(m, n), max(m, n)
         m = max(m, _min_rows(spec))
+    if name == "ConFIG" and rng.random() < 0.35:
+        # an exactly null row (its unit vector is 0 by definition) among otherwise independent rows: the rows after it must
+        # keep THEIR OWN preference weights under every joint permutation
+        m = max(3, min(m, n + 1))
+        kind = "zerorow"
     if kind == "wellcond" and m > n:
         kind = "gauss"
     mat = {"kind": kind, "m": m, "n": n, "seed": rng.randrange(10**6), "dtype": dtype,
